@@ -81,7 +81,7 @@ func (g *adaptive) genNum() psref.Tok {
 }
 
 func (g *adaptive) genName() string {
-	return []string{"a", "b", "c", "k1", "k2", "Foo", "x.y", "add", "StandardEncoding"}[g.draw(9, "name")]
+	return []string{"a", "b", "c", "k1", "k2", "Foo", "x.y", "add", "StandardEncoding", "caf\xc3\xa9", "n\xe9\xff"}[g.draw(11, "name")]
 }
 
 func (g *adaptive) genStringLit() psref.Tok {
